@@ -193,6 +193,11 @@ class Interp:
                 return len(self.sev(e.args[0], fr, env, ctx))
             if n == "shape":
                 return self.sev(e.args[0], fr, env, ctx).shape[e.args[1].value]
+            if n == "rev_seg":
+                a = self.sev(e.args[0], fr, env, ctx).copy()
+                i_, j_ = pyval(self.sev(e.args[1], fr, env, ctx)), pyval(self.sev(e.args[2], fr, env, ctx))
+                a[i_:j_ + 1] = a[i_:j_ + 1][::-1].copy()
+                return a
             if n == "written":
                 an = e.args[0].id
                 ks = tuple(pyval(self.sev(x, fr, env, ctx)) for x in e.args[1:])
@@ -211,6 +216,10 @@ class Interp:
             if n in S.SPECS:
                 sf = S.SPECS[n]
                 args = [self.sev(a, fr, env, ctx) for a in e.args]
+                if sf.ast is None:
+                    if sf.pyimpl is None:
+                        raise Unsupported(f"uninterpreted spec {n} has no concrete implementation")
+                    return sf.pyimpl(*args)
                 c2 = {k: v for k, v in ctx.items() if k != "bound"}
                 return self.sev(sf.ast, fr, dict(zip(sf.params, args)), c2)
         raise Unsupported(f"spec expression {ast.unparse(e)}")
@@ -498,20 +507,13 @@ class Interp:
 
     def after_stmt(self, s, fr):
         c = fr.c
-        if not (c.ghost_code or c.asserts):
+        key = fr.fs.after_key.get(id(s))
+        if key is None or not (c.ghost_code or c.asserts):
             return
-        pat = self.stmt_pattern(s)
-        if pat is None:
-            return
-        n = fr.stmt_counts.get(pat, 0)
-        fr.stmt_counts[pat] = n + 1
-        key = f"after {pat} #{n}"
         for gs in c.ghost_code.get(key, []):
             self.ghost(gs, fr)
         for cl in c.asserts.get(key, []):
             self.check_clause(fr, cl, fr.env, self.ctx(fr), "assert", f"{key}:{cl.label}")
-
-    stmt_pattern = staticmethod(lambda s: __import__("pyvc.symexec", fromlist=["Engine"]).Engine.stmt_pattern(None, s))
 
     def ctx(self, fr):
         c = {"old": fr.old}
@@ -563,8 +565,7 @@ class Interp:
         if t is ast.Continue:
             raise _Continue()
         if t is ast.If:
-            k = fr.if_count
-            fr.if_count += 1
+            k = fr.fs.if_ord[id(s)]
             c = bool(self.ev(s.test, fr))
             key = f"if#{k}"
             if key in fr.c.branch_iff:
@@ -626,15 +627,6 @@ class Interp:
             raise v
         base[ts] = src[vs].copy()
 
-    def loop_key(self, fr):
-        fr.loop_ord.append(fr.loop_counter[-1])
-        fr.loop_counter[-1] += 1
-        fr.loop_counter.append(0)
-        return ".".join(str(x) for x in fr.loop_ord)
-
-    def loop_done(self, fr):
-        fr.loop_counter.pop()
-        fr.loop_ord.pop()
 
     def snapshot(self, fr):
         return {k: (v.copy() if isinstance(v, np.ndarray) else v) for k, v in fr.env.items()}
@@ -647,8 +639,7 @@ class Interp:
             self.check_clause(fr, cl, fr.env, ctx, kind, f"loop{ordn}:{cl.label}")
 
     def for_(self, s, fr):
-        ordn = self.loop_key(fr)
-        saved_counter = list(fr.loop_counter)
+        ordn = fr.fs.loop_ord[id(s)]
         try:
             lp = fr.c.loops.get(ordn) or S.Loop()
             it, tgt = s.iter, s.target
@@ -685,7 +676,6 @@ class Interp:
                         if w is not None and not w[k]:
                             self.fail(fr, "init", f"for-elem@{self.lab(fr)}", f"read of unwritten cell {k}")
                         fr.env[evar] = pyval(seq[k])
-                    fr.loop_counter[:] = saved_counter
                     try:
                         self.block(s.body, fr)
                     except _Continue:
@@ -702,12 +692,10 @@ class Interp:
             fr.at_loop.pop()
             fr.stmt = s
         finally:
-            fr.loop_counter[:] = saved_counter
-            self.loop_done(fr)
+            pass
 
     def while_(self, s, fr):
-        ordn = self.loop_key(fr)
-        saved_counter = list(fr.loop_counter)
+        ordn = fr.fs.loop_ord[id(s)]
         try:
             lp = fr.c.loops.get(ordn) or S.Loop()
             for gs in lp.ghost_pre:
@@ -722,7 +710,6 @@ class Interp:
                     fr.stmt = s
                     if not self.ev(s.test, fr):
                         break
-                    fr.loop_counter[:] = saved_counter
                     try:
                         self.block(s.body, fr)
                     except _Continue:
@@ -739,7 +726,6 @@ class Interp:
                 pass
             fr.at_loop.pop()
         finally:
-            fr.loop_counter[:] = saved_counter
-            self.loop_done(fr)
+            pass
 
     _view_wr: dict = {}
